@@ -17,7 +17,12 @@ the same with a trailing byte, junk, …).
 as it is since /repo cc9c5f7 (shares whose Content / Index differ from the first
 share through the stage – the node's own – are skipped; on the pinned commit the
 stage recovered and reported with the Content and Index of whichever message
-completed the threshold: finding F18, corpus/C01).
+completed the threshold: finding F18, corpus/C01) and /repo 7f58072 (a submitter
+without an own share – its content stage failed – neither registers nor collects:
+finding F19) and /repo 3a1c0bc (after its single report the stage keeps TAKING and
+dropping what `queryLoop` sends until the query context ends: `stageStep` on a
+stopped stage consumes the message and changes nothing; the blocking that the old
+stage caused in `queryLoop` is `Collector.runB`, finding F20, C13).
 -/
 import DosModel.Model.Content
 import DosModel.Model.Collector
@@ -189,7 +194,31 @@ def handleQuery (C : Crypto) (padSize addrLen : Nat) (mb : Member) (r : Request)
       -- dispatchSign: send the share to the submitter, close the pipeline
       { sent := [(sub, own)], registered := false, reports := [], stop := .none }
     else
-      -- dispatchSign: own share first, then register; recoverSign; reportQueryResult reads ONE value
+      match own with
+      | none =>
+        -- since /repo 7f58072: `case sign, ok := <-signc: if !ok || sign == nil { close(out); return }` –
+        -- genSign produced nothing (fetch / selector error): no registration, the stage sees its input
+        -- closed and returns, nothing is collected, nothing is reported
+        { sent := [], registered := false, reports := [], stop := .none }
+      | some o =>
+        -- dispatchSign: own share first, then register; recoverSign; reportQueryResult reads ONE value
+        let st := recoverStage C (threshold mb.ids.length) addrLen (some o :: fromCollector)
+        { sent := [], registered := true, reports := st.out.take 1,
+          stop := if st.stop = some .panicRecover then .panicRecover else .none }
+
+/-- `handleQuery` as it was BEFORE /repo 7f58072 (finding F19, corpus/C01/f19_own_nil.txt): a nil own
+share was forwarded to the stage, which skipped it, and the node registered all the same – the first
+PEER share through then fixed `own`.  Kept only for the negation witness in `Props/C01.lean`. -/
+def handleQueryOld (C : Crypto) (padSize addrLen : Nat) (mb : Member) (r : Request)
+    (fromCollector : List (Option Msg)) : NodeOut :=
+  match submitter mb.ids r.last with
+  | none => { sent := [], registered := false, reports := [], stop := .panicSubmitter }
+  | some sub =>
+    let own : Option Msg := (contentFor padSize r sub).map (fun c =>
+      { index := r.kind.ptype, rid := r.ridBytes, content := some c, sig := some (mb.signOwn c) })
+    if mb.me ≠ sub then
+      { sent := [(sub, own)], registered := false, reports := [], stop := .none }
+    else
       let st := recoverStage C (threshold mb.ids.length) addrLen (own :: fromCollector)
       { sent := [], registered := true, reports := st.out.take 1,
         stop := if st.stop = some .panicRecover then .panicRecover else .none }
@@ -375,17 +404,20 @@ def hexList (s : String) : Option (List Bytes) :=
 /-- the whole case: n members, the honest ones run `handleQuery`; the submitter's collector
 sees the scheduled arrivals and the registration -/
 def runCase (padSize addrLen : Nat) (kind : Kind) (n : Nat) (ids : List Bytes) (byz : List Nat)
-    (last rid useed : Nat) (parsed : Option Bytes) (alts : List Bytes) (sched : List Item) : String :=
+    (last rid useed : Nat) (parsed : Option Bytes) (fails : List Nat) (alts : List Bytes) (sched : List Item) : String :=
   let t := threshold n
   let rid := if kind = .sys then last else rid      -- onchainLoop passes LastRandomness as the id
   let req : Request := { kind := kind, rid := rid, last := last, seed := useed, parsed := parsed }
+  -- `handleQuery`'s arguments are the same at every member; what the fetch gives is per member
+  -- (`fails` = the members whose `dataFetch` / `dataParse` fails while the others succeed)
+  let reqOf (i : Nat) : Request := if fails.contains i then { req with parsed := none } else req
   match submitterIdx last n, submitter ids last with
   | some subI, some sub =>
     let c0 := contentFor padSize req sub
     let contents : List Bytes := (c0.getD []) :: alts
     let C := symCrypto contents t n
     let ridB := req.ridBytes
-    let honestMsg (j : Nat) : Option Msg := c0.map (fun c =>
+    let honestMsg (j : Nat) : Option Msg := (contentFor padSize (reqOf j) sub).map (fun c =>
       { index := kind.ptype, rid := ridB, content := some c, sig := some [1, UInt8.ofNat j, 0] })
     let msgOfItem (it : Item) : Option Msg :=
       if it.kind = 'h' then honestMsg it.j
@@ -402,7 +434,7 @@ def runCase (padSize addrLen : Nat) (kind : Kind) (n : Nat) (ids : List Bytes) (
       let it := p.2
       if it.to.isSome then none
       else if it.kind = 'S' then some (.register 0 ridB)
-      else if it.kind = 'h' ∧ c0.isNone then none
+      else if it.kind = 'h' ∧ (honestMsg it.j).isNone then none
       else (msgOfItem it).map (fun m => .arrive { rid := m.rid, tag := p.1 }))
     let msgOf (tag : Nat) : Option Msg := (sched[tag]?).bind msgOfItem
     let kindTag := if kind = .sys then "rand" else "data"
@@ -415,8 +447,8 @@ def runCase (padSize addrLen : Nat) (kind : Kind) (n : Nat) (ids : List Bytes) (
           | some k => [1, UInt8.ofNat i, UInt8.ofNat k]
           | none => []
         let mb : Member := { ids := ids, me := ids.getD i [], signOwn := signOwn }
-        let out := if i = subI ∧ started then nodeRun C padSize addrLen mb req msgOf evs 0
-                   else handleQuery C padSize addrLen mb req []
+        let out := if i = subI ∧ started then nodeRun C padSize addrLen mb (reqOf i) msgOf evs 0
+                   else handleQuery C padSize addrLen mb (reqOf i) []
         let out := if i = subI ∧ ¬ started then { out with reports := [] } else out
         some (match out.stop, out.reports with
           | .panicRecover, _ => s!"{i}=panic"
@@ -445,7 +477,7 @@ def evLine (padSize addrLen : Nat) (ws : List String) : String :=
       | none => "panic submitter"
       | some subI =>
         if member then
-          runCase padSize addrLen req.kind n ids [] req.last req.rid req.seed req.parsed []
+          runCase padSize addrLen req.kind n ids [] req.last req.rid req.seed req.parsed [] []
             (sched.filter (fun it => it.kind = 'S' ∨ it.j ≠ subI))
         else
           "sub=" ++ toString subI ++ " " ++ String.intercalate " " ((List.range n).map (fun i => s!"{i}=-"))
@@ -458,12 +490,16 @@ def stepLine (padSize addrLen : Nat) (line : String) : String :=
   | ["q", kind, n, _seed, ids, byz, last, rid, useed, _doc, _sel, parsed, alts, sched] =>
     match parseKind kind, n.toNat?, hexList ids, csvNat byz, last.toNat?, rid.toNat?, useed.toNat?, hexList alts with
     | some kind, some n, some ids, some byz, some last, some rid, some useed, some alts =>
+      -- `<hex|err>[!i,j,…]`: what the fetch gives, and the members at which it fails all the same
+      let (parsed, failTok) : String × String := match parsed.splitOn "!" with
+        | [p, f] => (p, f)
+        | _ => (parsed, "-")
       let parsedV : Option (Option Bytes) :=
         if parsed == "err" then some none else (ofHex parsed).map some
       let items : Option (List Item) := if sched == "-" then some [] else (sched.splitOn ",").mapM parseItem
-      match parsedV, items with
-      | some p, some its => runCase padSize addrLen kind n ids byz last rid useed p alts its
-      | _, _ => "bad-op"
+      match parsedV, csvNat failTok, items with
+      | some p, some fails, some its => runCase padSize addrLen kind n ids byz last rid useed p fails alts its
+      | _, _, _ => "bad-op"
     | _, _, _, _, _, _, _, _ => "bad-op"
   | _ => "bad-op"
 
